@@ -490,10 +490,12 @@ def _relabel_mutations_node(
 
     insert_position = edges_left[insert_index]
     remove_position = edges_right[remove_index]
-    sequence_length = remove_position[-1]
+    sequence_length = remove_position[-1] if num_edges > 0 else 0.0
 
     output = np.full(num_mutations, tskit.NULL, dtype=np.int32)
-    nodes_map = np.full(num_nodes, tskit.NULL, dtype=np.int32)
+    # a node keeps its own id wherever it has not (yet) appeared on an edge,
+    # e.g. mutations above isolated samples in regions without edges
+    nodes_map = np.arange(num_nodes, dtype=np.int32)
     a, b, m = 0, 0, 0
     left = 0.0
     while left < sequence_length:
@@ -515,9 +517,12 @@ def _relabel_mutations_node(
         left = right
 
         while m < num_mutations and mutations_position[m] < right:
-            assert nodes_map[mutations_node[m]] != tskit.NULL
             output[m] = nodes_map[mutations_node[m]]
             m += 1
+
+    while m < num_mutations:  # sites to the right of the last edge
+        output[m] = nodes_map[mutations_node[m]]
+        m += 1
 
     return output
 
